@@ -325,10 +325,17 @@ pub async fn handle_srt_packet(
             //   routing has mostly moved off it.
             //
             // Only data packets have seq != None (control packets have MSB set).
+            //
+            // The override picks only among links normal selection could have
+            // picked (not timed out, not stall-gated; `select_connection_idx`
+            // above has just refreshed the gate flags).
             if seq.is_some()
                 && (critical_window.is_critical_now(packet_time_ms)
                     || srtla_protocol::is_srt_data_retransmit(pkt))
-                && let Some(best_idx) = srtla_core::priority::select_best_quality_idx(connections)
+                && let Some(best_idx) = srtla_core::priority::select_best_quality_eligible_idx(
+                    connections,
+                    packet_time_ms,
+                )
                 && sel_idx != Some(best_idx)
             {
                 trace!(
